@@ -153,6 +153,13 @@ class Runner:
                              ('treespec_from_collection', optree.treespec_from_collection(dict(src), namespace=ns)),
                              ('treespec_from_collection/defaultdict', optree.treespec_from_collection(defaultdict(int, src), namespace=ns))):
                 sink.check(sp.entries() == want_keys, f'ctor/{name}', 'treespec constructors read the same mode', ident, lambda: (sp.entries(), want_keys))
+            mixed_keys = ['zeta', 'mid', 'alpha'] if eff else ['alpha', 'mid', 'zeta']
+            for name, mk in (('treespec_dict/pairs+keywords', lambda: optree.treespec_dict([('zeta', leaf), ('mid', optree.treespec_tuple([leaf]))], alpha=leaf, namespace=ns)),
+                             ('treespec_dict/mapping+keywords', lambda: optree.treespec_dict({'zeta': leaf, 'mid': leaf}, alpha=leaf, namespace=ns)),
+                             ('treespec_defaultdict/pairs+keywords', lambda: optree.treespec_defaultdict(int, [('zeta', leaf), ('mid', leaf)], alpha=leaf, namespace=ns))):
+                sp_m = mk()
+                sink.check(sp_m.entries() == mixed_keys, f'ctor/{name}', 'positional entries come first, keyword children after (insertion order) - or everything sorted when the mode is off', ident,
+                           lambda: (sp_m.entries(), mixed_keys))
             sp = optree.treespec_ordereddict(OrderedDict(src), namespace=ns)
             sink.check(sp.entries() == ['b', 'a', 'c'], 'ctor/ordereddict-unaffected', 'OrderedDict is unaffected either way', ident)
             one = optree.tree_flatten_one_level({'b': 1, 'a': 2}, namespace=ns)
